@@ -275,6 +275,8 @@ class Sim:
         self.leaked = []
         self.thread_deaths = []
         self.seq = 0
+        self.thread_starts = 0
+        self.fail_start_at = None
 
     # ---- logging ---------------------------------------------------------
     def log(self, kind, *data):
